@@ -39,6 +39,31 @@ func (rule *RuleWorkflowCall) VisitWorkflowPre(n *Workflow) error {
 			break
 		}
 	}
+
+	// Look up all the local reusable workflows called by this workflow before visiting the jobs. The error on
+	// reading a reusable workflow file is returned only at the first look up. It must be reported by this rule
+	// even if another rule looks up the workflow earlier (e.g. for typing `needs` context of a job which is
+	// put before the job calling the workflow).
+	calls := make([]*WorkflowCall, 0, len(n.Jobs))
+	for _, j := range n.Jobs {
+		if c := j.WorkflowCall; c != nil && c.Uses != nil && c.Uses.Value != "" && !c.Uses.ContainsExpression() {
+			calls = append(calls, c)
+		}
+	}
+	sort.Slice(calls, func(i, j int) bool {
+		return calls[i].Uses.Pos.IsBefore(calls[j].Uses.Pos)
+	})
+	for _, c := range calls {
+		u := c.Uses
+		if isWorkflowCallUsesLocalFormat(u.Value) {
+			if _, err := rule.cache.FindMetadata(u.Value); err != nil {
+				rule.Error(u.Pos, err.Error())
+			}
+		} else if !isWorkflowCallUsesRepoFormat(u.Value) && strings.HasPrefix(u.Value, "./") {
+			rule.cache.writeCache(u.Value, nil) // See the comment in VisitJobPre
+		}
+	}
+
 	return nil
 }
 
